@@ -8,6 +8,9 @@ from ..oracles import lex
 
 CORE = ["a", " ", "\n", "\r", "\r\n", ";", "(", ")", "]", "*/", "*", "/", "G1 X9", "M3 S1", '"']
 TOKENS = CORE + ["é", "{}", "%s", "'", ">", "}", "#", "//", "[", "/*"]
+# single texts outside the token grammar: long ones, exotic separators, format-string look-alikes, escapes
+SPECIAL = ["note " * 80, ("Traceback: " + "x" * 300 + ")\nM3 S1"), "a\x0bG1 X9", "a\x0cG1 X9", "a\x85G1 X9", "a\u2028G1 X9", "a\u2029M3 S1", "a\x1cG1 X9",
+           "{0}", "{x}", "{", "%(a)s", "%d", "\\", "a\\", "\\n", "$", "\t", "\x00", "a\tG1 X9", " ", "   ", "\n", "\r\n\r\n", ")(", "))", "*/*/", "\ufeffG1 X9"]
 STYLES = [";", "#", "//", "(", "[", "/*", '"', "'", "<"]
 
 ENTRIES = {
@@ -103,6 +106,9 @@ def run(tier, seed):
                 items.append((style, entry, 3, TOKENS))
                 if entry in ("comment", "move", "annotate"):
                     items.append((style, entry, 4, core[:12]))
+    for style in STYLES:
+        for entry in ENTRIES:
+            items.append((style, entry, 1, SPECIAL))
     # run-time style switches on a live builder (non-initial formatter state): every ordered pair of styles
     for a in STYLES:
         for b in STYLES:
@@ -120,7 +126,7 @@ def run(tier, seed):
         "evaluations": total,
         "distinct_nontrivial": len(outcomes),
         "rule": (f"every string of <= 2-4 tokens (bounds per entry point in 'spaces') from {TOKENS!r} x comment styles {STYLES!r} x "
-                 f"entry points {list(ENTRIES)}; each call is made on a fresh real GCodeBuilder and its raw output, split on CR LF / LF / CR and "
+                 f"entry points {list(ENTRIES)}, plus {len(SPECIAL)} single texts outside the grammar (long texts, VT/FF/NEL/LS/PS/FS, format-string look-alikes, escapes, NUL, BOM) for every style and entry point; each call is made on a fresh real GCodeBuilder and its raw output, split on CR LF / LF / CR and "
                  "stripped of comments by an independent lexer under the configured style, must execute the same words on the same number of lines "
                  "as the same call with the text 'x'; distinct = distinct raw outputs"),
         "exhaustive": True,
